@@ -16,7 +16,7 @@ from __future__ import annotations
 
 import ast
 
-from ..core import AnalysisError, const_value, norm, walk_own, walk_stmts
+from ..core import AnalysisError, const_value, names_in, norm, walk_own, walk_stmts
 from ..paths import enum_paths, canon_test
 from .. import relang, tmpl
 from . import gfa_common as gc
@@ -163,6 +163,12 @@ def r07_1(ctx, g):
     rg = g.read_graph
     call = [c for c in walk_own(rg.node) if isinstance(c, ast.Call) and isinstance(c.func, ast.Attribute) and c.func.attr == "add_edge"]
     ok_r = False
+    if len(call) != 1:
+        raise AnalysisError("R07.1", rg.where(), f"expected one add_edge call in the reader, found {len(call)}")
+    if not (len(call[0].args) == 2 and isinstance(call[0].args[0], ast.Starred) and isinstance(call[0].args[0].value, ast.Name)):
+        # explicit arguments: each must be a column of the split L line; without the `*columns, tags` idiom the columns
+        # cannot be traced here
+        raise AnalysisError("R07.1", rg.where(call[0]), "the reader hands the link columns to add_edge one by one (not as `*columns, tags`): their provenance is not traced")
     if len(call) == 1 and len(call[0].args) == 2 and isinstance(call[0].args[0], ast.Starred) and isinstance(call[0].args[0].value, ast.Name):
         ev_ = call[0].args[0].value.id
         sl = [st for st in walk_own(rg.node) if isinstance(st, ast.Assign) and norm(st.targets[0]) == ev_ and isinstance(st.value, ast.Subscript) and isinstance(st.value.slice, ast.Slice)]
@@ -299,10 +305,9 @@ def r07_3(ctx, g):
 
 def r07_4(ctx, g):
     repo = ctx.repo
-    um = repo.module("gaftools.utils", "R07.4")
-    tr = um.consts.get("tag_regex")
-    if not isinstance(tr, ast.Constant):
-        raise AnalysisError("R07.4", um.relpath, "tag_regex is not a constant")
+    from ..core import tag_grammar
+
+    um, _trn, tr, _tyn, _ty, _ict = tag_grammar(repo, "R07.4")
     items = relang.flatten(relang.parse(tr.value))
     core, _, _ = relang.strip_anchors(items)
     val = core[-1]
@@ -434,26 +439,27 @@ def r07_7(ctx, g):
 
 def r07_8(ctx, g):
     repo = ctx.repo
-    um = repo.module("gaftools.utils", "R07.8")
-    tr = um.consts.get("tag_regex")
+    from ..core import tag_grammar
+
+    um, _trn, tr, tyname, ty_, ict_ = tag_grammar(repo, "R07.8")
     items = relang.flatten(relang.parse(tr.value))
     core, a0, a1 = relang.strip_anchors(items)
     letters = set(map(ord, "ABCDEFGHIJKLMNOPQRSTUVWXYZabcdefghijklmnopqrstuvwxyz"))
     digits = set(map(ord, "0123456789"))
     ok = a0 and a1 and core[0][0] == "char" and core[0][1] == letters and core[1][0] == "char" and core[1][1] == letters | digits
     ctx.check(ok, "R07.8", um.relpath, "the GFA tag grammar accepts every tag name of the form [A-Za-z][A-Za-z0-9] (as the GAF parser and the SAM specification do)", "gaftools.utils::tag-name-class", first=len(core[0][1]) if core[0][0] == "char" else None, second=len(core[1][1]) if core[1][0] == "char" else None)
-    ty = um.consts.get("types_regex")
+    ty = ty_
     types = {const_value(k) for k in ty.keys} if isinstance(ty, ast.Dict) else set()
     tclass = core[3][1] if len(core) > 3 and core[3][0] == "char" else set()
     ctx.check(types == {chr(c) for c in tclass}, "R07.8", um.relpath, "every tag type admitted by tag_regex has a value grammar in types_regex", "gaftools.utils::types-table", types=sorted(types))
-    ict = repo.func("gaftools.utils", "is_correct_tag", "R07.8")
+    ict = ict_
     ctx.analysed_func(ict)
     src = norm(ict.node)
     from ..core import regex_call
 
     pats = [rc for c in walk_own(ict.node) for rc in [regex_call(um, c)] if rc is not None]
     uses_grammar = any(rc[0] in ("match", "fullmatch") and rc[1] == tr.value and rc[2] and norm(rc[2][0]) == ict.params[0] for rc in pats)
-    ctx.check(uses_grammar and "types_regex[" in src, "R07.8", ict.where(), "a tag is accepted iff it matches the tag grammar and its value matches the grammar of its type", key_of(ict, "is-correct-tag"))
+    ctx.check(uses_grammar and f"{tyname}[" in src, "R07.8", ict.where(), "a tag is accepted iff it matches the tag grammar and its value matches the grammar of its type", key_of(ict, "is-correct-tag"))
 
 
 def r07_9(ctx, g):
@@ -497,8 +503,14 @@ def r07_9(ctx, g):
         if not seqs:
             bad = (p, "sequence column not set")
             continue
-        worlds = [(w, em) for w in (True, False) for em in (True, False)]
+        # when every caller leaves with_seq at one constant the function is specialised on it: only that world exists
+        w_values = (True, False) if "with_seq" in names_in(f.node) else (True,)
+        worlds = [(w, em) for w in w_values for em in (True, False)]
         for t, pol in p.tests():
+            if isinstance(t, ast.Constant):
+                if bool(t.value) != pol:
+                    worlds = []
+                continue
             tb = bool_table(t, [A_W, A_E])
             if tb is None:
                 continue
